@@ -70,13 +70,13 @@ Fixpoint eval (look : N -> result Q) (e : expr) : result Q :=
 
 Inductive scope :=
 | SDict (l : list (N * Q))
-| SMapped (inner : scope) (m : list (N * expr))
+| SMapped (inner : scope) (m : list (N * expr)) (ids : list N)   (* ids: names MappingPT maps to themselves *)
 | SRange (inner : scope) (x : N) (v : Z).
 
 Fixpoint lookup (s : scope) (x : N) : result Q :=
   match s with
   | SDict l => match nassoc x l with Some v => Ok v | None => Err EMissing end
-  | SMapped inner m => match nassoc x m with Some e => eval (lookup inner) e | None => lookup inner x end
+  | SMapped inner m _ => match nassoc x m with Some e => eval (lookup inner) e | None => lookup inner x end
   | SRange inner y v => if N.eqb x y then Ok (inject_Z v) else lookup inner x
   end.
 
@@ -87,15 +87,15 @@ Definition evals (s : scope) (e : expr) : result Q := eval (lookup s) e.
 Fixpoint scope_keys (s : scope) : list N :=
   match s with
   | SDict l => map fst l
-  | SMapped inner m => map fst m ++ scope_keys inner
+  | SMapped inner m ids => map fst m ++ ids ++ scope_keys inner
   | SRange inner x _ => x :: scope_keys inner
   end.
 Fixpoint scope_force (s : scope) : result unit :=
   match s with
   | SDict _ => Ok tt
-  | SMapped inner m =>
+  | SMapped inner m ids =>
       (fix go (l : list N) : result unit :=
-         match l with [] => Ok tt | x :: r => _ <- lookup s x ;; go r end) (map fst m ++ scope_keys inner)
+         match l with [] => Ok tt | x :: r => _ <- lookup s x ;; go r end) (map fst m ++ ids ++ scope_keys inner)
   | SRange inner _ _ => scope_force inner
   end.
 
@@ -482,7 +482,8 @@ Inductive atom :=
 | ATable (chs : list (chan * list (expr * expr * interp)))              (* TablePT *)
 | APoint (entries : list (expr * list expr * interp)) (chs : list chan) (* PointPT; one value = broadcast *)
 | AMulti (l : list atom)                                                (* AtomicMultiChannelPT (no duration kw) *)
-| AArith (l : atom) (op : aop) (r : atom).                              (* ArithmeticAtomicPT *)
+| AArith (l : atom) (op : aop) (r : atom)                               (* ArithmeticAtomicPT *)
+| AFunc (d : expr) (c : chan) (a b : expr).                             (* FunctionPT with the affine expression a + b*t *)
 
 Inductive sop := SAdd | SSub | SMul | SDiv.
 
@@ -511,6 +512,7 @@ Fixpoint atom_chans (a : atom) : list chan :=
   | APoint _ chs => chs
   | AMulti l => (fix go (l : list atom) : list chan := match l with [] => [] | x :: r => cunion (atom_chans x) (go r) end) l
   | AArith l _ r => cunion (atom_chans l) (atom_chans r)
+  | AFunc _ c _ _ => [c]
   end.
 Fixpoint pt_chans (p : pt) : list chan :=
   match p with
@@ -599,6 +601,27 @@ Definition build_point (s : scope) (cm : chanmap) (entries : list (expr * list e
   ws <- rmap (fun ce => from_table (fst ce) (snd ce)) kept ;;
   w <- from_parallel ws ;; Ok (Some w).
 
+(* FunctionPulseTemplate.build_waveform + FunctionWaveform.from_expression for the expression  a + b*t :
+   a dropped channel gives None before anything is evaluated; evaluate_symbolic(substitutions=scope) reads the WHOLE
+   scope (every mapped parameter is evaluated, as in ArithmeticPT); the duration is evaluated next; a parameter of the
+   expression that the scope does not provide stays symbolic and FunctionWaveform rejects it with ValueError; an expression
+   that no longer contains t (b evaluates to 0) becomes a ConstantWaveform.  No duration check: a non-positive duration is
+   instantiated.  On [0, d] the FunctionWaveform  a + b*t  is observationally the two-entry linear TableWaveform
+   (0, a) -> (d, a + b*d), which is how it is represented here (modelling device; constant_value is None for both). *)
+Definition value_err {A} (r : result A) : result A :=
+  match r with Err EMissing => Err EValue | _ => r end.
+Definition build_func (s : scope) (cm : chanmap) (d : expr) (c : chan) (a b : expr) : result (option wf) :=
+  match cm c with
+  | None => Ok None
+  | Some m =>
+      _ <- scope_force s ;;
+      dv <- evals s d ;;
+      av <- value_err (evals s a) ;;
+      bv <- value_err (evals s b) ;;
+      if Qeq_bool bv 0 then Ok (Some (WConst dv m av))
+      else Ok (Some (WTable m [(0, av, Hold); (dv, Qred (av + bv * dv), Linear)]))
+  end.
+
 Fixpoint build_waveform (a : atom) (s : scope) (cm : chanmap) : result (option wf) :=
   match a with
   | AConst d amps => build_const s cm d amps
@@ -624,6 +647,7 @@ Fixpoint build_waveform (a : atom) (s : scope) (cm : chanmap) : result (option w
       | None, Some r => Ok (Some (match op with OpAdd => r | OpSub => wneg r end))
       | Some l, Some r => if Qeq_bool (wdur l) (wdur r) then Ok (Some (from_operator l op r)) else Err EValue
       end
+  | AFunc d c a b => build_func s cm d c a b
   end.
 
 (* ---- program trees (Loop) ---- *)
@@ -702,6 +726,38 @@ Fixpoint par_values (look : N -> result Q) (cm : chanmap) (l : list (chan * expr
                    end
   end.
 
+(* parameter_names: the parameters a template declares *)
+Fixpoint expr_vars (e : expr) : list N :=
+  match e with
+  | EC _ => []
+  | EV x => [x]
+  | EAdd a b | ESub a b | EMul a b => expr_vars a ++ expr_vars b
+  end.
+Fixpoint atom_params (a : atom) : list N :=
+  match a with
+  | AConst d amps => expr_vars d ++ flat_map (fun ce => expr_vars (snd ce)) amps
+  | ATable chs => flat_map (fun ce => flat_map (fun e => expr_vars (fst (fst e)) ++ expr_vars (snd (fst e))) (snd ce)) chs
+  | APoint es _ => flat_map (fun e => expr_vars (fst (fst e)) ++ flat_map expr_vars (snd (fst e))) es
+  | AMulti l => (fix go (l : list atom) : list N := match l with [] => [] | x :: r => atom_params x ++ go r end) l
+  | AArith l _ r => atom_params l ++ atom_params r
+  | AFunc d _ a b => expr_vars d ++ expr_vars a ++ expr_vars b
+  end.
+Fixpoint pt_params (p : pt) : list N :=
+  match p with
+  | PAtom a => atom_params a
+  | PSeq l => (fix go (l : list pt) : list N := match l with [] => [] | x :: r => pt_params x ++ go r end) l
+  | PRep n b => expr_vars n ++ pt_params b
+  | PFor idx a b c body => expr_vars a ++ expr_vars b ++ expr_vars c ++ filter (fun x => negb (N.eqb x idx)) (pt_params body)
+  | PMap pm _ b => flat_map (fun x => match nassoc x pm with Some e => expr_vars e | None => [x] end) (pt_params b)
+  | PRev b => pt_params b
+  | PPar b ow => pt_params b ++ flat_map (fun ce => expr_vars (snd ce)) ow
+  | PArith _ _ sc b => pt_params b ++ match sc with inl e => expr_vars e | inr l => flat_map (fun ce => expr_vars (snd ce)) l end
+  end.
+(* MappingPT completes a partial parameter mapping with the identity on the remaining parameters of its body; these
+   names are keys of the MappedScope (they matter only where a scope is read as a whole: ArithmeticPT, FunctionPT) *)
+Definition map_ids (pm : list (N * expr)) (body : pt) : list N :=
+  filter (fun x => negb (existsb (N.eqb x) (map fst pm))) (pt_params body).
+
 (* _create_program / _internal_create_program of every template class, in the functional form of the LoopBuilder:
    the result is the list of children appended to the current top loop *)
 Fixpoint cp (p : pt) (s : scope) (cm : chanmap) (gt : option trafo) : result (list loop) :=
@@ -729,7 +785,7 @@ Fixpoint cp (p : pt) (s : scope) (cm : chanmap) (gt : option trafo) : result (li
          | [] => Ok []
          | i :: r => x <- cp body (SRange s idx i) cm gt ;; y <- go r ;; Ok (x ++ y)
          end) (zrange a b c)
-  | PMap pm chm body => cp body (SMapped s pm) (cm_compose cm chm) gt
+  | PMap pm chm body => cp body (SMapped s pm (map_ids pm body)) (cm_compose cm chm) gt
   | PRev body =>
       cs <- cp body s cm gt ;;
       match cs with [] => Ok [] | _ => Ok [reverse_loop (Nest 1 cs)] end
